@@ -472,3 +472,16 @@ package txmgr
 // [C01]: in the quiescent state (the credit is not newer than the sync height); [C17]: for ANY relation between the
 // caller's sync height and the stored height (a query racing with block processing reads them at different times).
 
+
+// P1 (C09): a reported spent-by-unconfirmed flag means that the pending-inputs bucket has an entry for exactly this
+// outpoint (36-byte key hash ++ BE32 index).  The converse holds up to read errors of the bucket, which the lookup
+// helper treats as not-found by design.
+//@ define curKS(s) = ghostOf[*keystore.AddrManager]("curKS", s.ksmgr)
+//@ func (*TxStore).ExistsUtxo
+//@   props C09 C19
+//@   requires s != nil && s.bucketMeta != nil && s.ksmgr != nil && tx != nil && out != nil && curKS(s) != nil
+//@   ensures err == nil ==> flags != nil
+//@   ensures err == nil && flags.SpentByUnmined ==> bhasI(B(tx, s.bucketMeta.nsUnminedInputs), canonicalOutPoint(&out.Hash, out.Index))
+//@   ensures err != nil ==> flags == nil
+//@   loop#1 invariant cred.block != nil && fresh(cred.block) && out != nil && nsUnminedInputs != nil && bid(nsUnminedInputs) == B(tx, s.bucketMeta.nsUnminedInputs)
+//@   loop#2 invariant cred.block != nil && fresh(cred.block) && out != nil && nsUnminedInputs != nil && bid(nsUnminedInputs) == B(tx, s.bucketMeta.nsUnminedInputs)
